@@ -199,7 +199,9 @@ func (l *snLink) deliverC2G(b []byte) {
 		gc.Out = func(i int, bb []byte) { l.g2c(bb) }
 		gc.OnClose = func() { s.W.Log("sess:"+sess, "end", nil, "", 0) }
 		l.gw = gc
+		s.mu.Lock()
 		s.pendingDial = append(s.pendingDial, sess)
+		s.mu.Unlock()
 		s.sessions = append(s.sessions, sess)
 		s.W.Log("sess:"+sess, "accept", nil, l.name, 0)
 		if !ls.Push(gc) {
@@ -241,10 +243,21 @@ func (timeoutError) Temporary() bool { return true }
 
 func (s *Sim) dialTCP(ctx context.Context, addr string, timeout time.Duration) (net.Conn, error) {
 	sess := "?"
-	if len(s.pendingDial) > 0 {
+	s.mu.Lock()
+	if x, ok := s.dialBy[simrt.Goid()]; ok {
+		sess = x
+		delete(s.dialBy, simrt.Goid())
+		for i, p := range s.pendingDial {
+			if p == sess {
+				s.pendingDial = append(s.pendingDial[:i:i], s.pendingDial[i+1:]...)
+				break
+			}
+		}
+	} else if len(s.pendingDial) > 0 {
 		sess = s.pendingDial[0]
 		s.pendingDial = s.pendingDial[1:]
 	}
+	s.mu.Unlock()
 	switch s.Plan.Broker.DialFail {
 	case "refuse":
 		s.fault("dial-refused")
